@@ -193,12 +193,14 @@ struct EHist {
         std::string pdesc;
         SecureString pass = MakePass(s, pdesc);
         const unsigned n_imports = s.range<unsigned>(0, 3);
-        unsigned nops = s.range<unsigned>(0, journal_only ? 0 : (crash_mode ? 4 : 10));
+        unsigned nops = journal_only ? 0 : s.range<unsigned>(crash_mode ? 0 : 2, crash_mode ? 4 : 10);
         st.mix(uint64_t(wo.generated_seed)); st.mix(uint64_t(n_imports)); st.mix(pdesc);
         st.note(wo.generated_seed ? "generated-seed" : "fixed-descriptors", " keypool=", wo.keypool, " passphrase=", pdesc);
 
         Mark("op-begin create 0");
         WalletSim ws(sim, wo);
+        // CWallet::CreateNew gives every new wallet this flag (descriptor caches are complete from birth); WalletSim builds the wallet by hand
+        ws.wallet().SetWalletFlag(wallet::WALLET_FLAG_LAST_HARDENED_XPUB_CACHED);
         Mark("op-end create");
         Mark("begin");
         DescModel model;
@@ -208,7 +210,8 @@ struct EHist {
         // imported private descriptors with keys made from the case bytes
         int imp = 0;
         auto import_one = [&](bool while_encrypted) {
-            const unsigned form = s.range<unsigned>(0, 3);
+            unsigned form = s.range<unsigned>(0, 3);
+            if (form == 3 && wo.generated_seed) form = 2; // WalletSim::Reload re-expands every descriptor of a generated-seed wallet from its PUBLIC string: no hardened ranges there
             std::vector<unsigned char> b = s.bytes(32);
             b.resize(32, uint8_t(0x11 + imp));
             b[0] |= 0x01; b[31] |= 0x01; b[0] &= 0x7f; // a valid secp256k1 scalar, never zero
@@ -258,7 +261,7 @@ struct EHist {
                 const uint256 id = model.AddString(p, /*persistent=*/!wo.generated_seed);
                 if (std::find(original_ids.begin(), original_ids.end(), id) != original_ids.end()) continue;
                 original_ids.push_back(id);
-                if (scripts.size() < 8) if (const CScript* spk = model.ScriptAt(id, s.range<int>(0, 1))) scripts.push_back(*spk);
+                if (scripts.size() < 8) if (const CScript* spk = model.ScriptAt(id, 0)) scripts.push_back(*spk); // index 0 is inside every range (keypool >= 1)
             }
         }
         VCHECK(!secrets.empty() && !scripts.empty(), "c42.harness", "no secrets / scripts collected");
@@ -397,7 +400,7 @@ struct EHist {
         if (secrets.size() > n_original_secrets) st.cls("born-encrypted-keys-scanned");
         st.cls("pass:" + pdesc.substr(0, pdesc.find('(')));
         st.mix(uint64_t(n_change)); st.mix(uint64_t(n_reload)); st.mix(uint64_t(n_import_enc));
-        st.nontrivial = n_wrong >= 1 && n_right >= 1 && (n_change + n_reload >= 1);
+        st.nontrivial = n_wrong >= 1 && n_right >= 1 && (n_change + n_reload + n_import_enc >= 1);
     }
 };
 
@@ -420,7 +423,7 @@ VERIF_TARGET(c42_encrypt, nullptr, 40, 360,
              "keys, hex, WIF, base58 xprv, BIP32 payload; also of keys born after the encryption) of wallet.dat after EncryptWallet/imports and of the whole wallet "
              "directory after every clean unload; SignTransaction incomplete and no input verifies while locked / after a wrong passphrase; after the right one "
              "every input verifies (script interpreter) against the ORIGINAL scripts; public descriptors and IsMine unchanged. non-trivial = >=1 wrong and right "
-             "unlock + (passphrase change or reload); distinct = configuration + op sequence")
+             "unlock + (passphrase change, mid-history reload or import while encrypted); distinct = configuration + op sequence")
 {
     EHist h(s, st, /*crash=*/false, /*journal=*/false);
     h.Run();
